@@ -1120,6 +1120,13 @@ theorem step_ok (s s' : St) (e : Ev) (ha : AllRec s) (hs : step s e = some s') :
       · simp at hs; subst hs; exact ⟨allRec_frame ha rfl rfl, steps_of_proj_eq rfl⟩
       all_goals cases hs
     · cases hs
+  | envErr a e0 =>
+    simp only [step, stepI] at hs
+    split at hs
+    · split at hs
+      · simp at hs; subst hs; exact ⟨allRec_frame ha rfl rfl, steps_of_proj_eq rfl⟩
+      all_goals cases hs
+    · cases hs
   | giveUp n =>
     simp only [step, stepI] at hs
     split at hs
